@@ -69,8 +69,12 @@ def run_pipeline(case, col, judge=True):
     info['features'] = f
     if f.get('max_ast_depth', 0) > 12 * md + 40:
         out.append(('C18/work/ast-depth-exceeds-12d+40', {'ast_depth': f.get('max_ast_depth'), 'max_depth': md}))
+    # the search bound is an option of the mutation: small values make the bound itself reachable in small programs
+    mc = [25, 200, pg.ERASURE_MAX_COMBINATIONS][(case.counters.get('generate_expr_calls', 0)) % 3]
+    info['mc'] = mc
     stages = [('translate-G', lambda: texts.__setitem__('G', pg.translate(prog, lang))),
-              ('erase', lambda: info.__setitem__('te', pg.erase(prog, lang).is_transformed)),
+              ('erase', lambda: (info.__setitem__('te', pg.erase(prog, lang, options={'timeout': 600, 'max_combinations': mc}).is_transformed),
+                                 info.__setitem__('comb', pg.last_erasure.get('combinations', 0)))),
               ('translate-E', lambda: texts.__setitem__('E', pg.translate(prog, lang))),
               ('overwrite', lambda: info.__setitem__('to', pg.overwrite(prog, lang).is_transformed)),
               ('translate-O', lambda: texts.__setitem__('O', pg.translate(prog, lang)))]
@@ -80,6 +84,9 @@ def run_pipeline(case, col, judge=True):
             info['reached'] = name
         except (KeyboardInterrupt, SystemExit):
             raise
+        except pg.ErasureUnbounded as e:
+            out.append(('C18/work/erasure-search-exceeds-max_combinations', {'msg': str(e)[:200]}))
+            break
         except (pg.Oversize, pg.ErasureBudget):
             info['oversize'] = True
             return out, info
@@ -118,6 +125,9 @@ def account(case, viols, info, col):
         col.max_extra('max_slack_nesting_minus_4d', case.counters['max_generate_expr_nesting'] - 4 * md)
         col.max_extra('max_slack_ast_depth_minus_12d', info.get('features', {}).get('max_ast_depth', 0) - 12 * md)
         col.max_extra('max_generate_expr_calls', case.counters['generate_expr_calls'])
+        col.max_extra('max_erasure_combinations_drawn_for_one_function', info.get('comb', 0) or 0)
+        if (info.get('comb', 0) or 0) > info.get('mc', 10 ** 9):
+            col.feature('erasure_search_reached_max_combinations')
     for sig, detail in viols:
         size = len(case.tape) if case.tape else 100000 + case.counters.get('generate_expr_calls', 0)
         col.violation(sig, detail, case.key(), size=size)
